@@ -181,6 +181,12 @@ def schedules(quick):
         ("single-import-lib-edit-last", "", [(0, "model", 1, "inplace"), (400, "lib", 2, "inplace")]),
         ("single-import-lib-edit-rename", "", [(0, "model", 1, "rename"), (400, "lib", 2, "rename"), (400, "lib", 3, "inplace")]),
         ("two-imports-lib-edit-last", "", [(0, "model", 1, "inplace"), (400, "lib", 2, "inplace")]),
+        # model files in subdirectories of the package under watch and of an imported package
+        ("subdir-file-edited", "", [(0, "model", 1, "inplace"), (400, "sub-file", 2, "inplace")]),
+        ("subdir-file-edited-rename", "", [(0, "sub-file", 1, "rename"), (400, "sub-file", 2, "rename")]),
+        ("subdir-lib-file-edited", "", [(0, "model", 1, "inplace"), (400, "lib-sub-file", 2, "inplace")]),
+        ("new-subdir-file-added", "", [(0, "model", 1, "inplace"), (400, "sub-file", 2, "inplace"), (400, "sub-file", 3, "inplace")]),
+        ("new-lib-subdir-file-added", "", [(0, "model", 1, "inplace"), (400, "lib-sub-file", 2, "inplace"), (400, "lib-sub-file", 3, "rename")]),
         # "first-": the saves start while the watcher's very first generation is still running (held at regen.validated#1), and nothing is saved afterwards
         ("first-generation-save", "regen.validated#1=1200", [(150, "model", 1, "inplace")]),
         ("first-generation-save-rename", "regen.validated#1=1200", [(150, "model", 1, "rename")]),
@@ -216,6 +222,8 @@ def run(ctx):
         root = os.path.join(ctx.workdir, "cases", name)
         shutil.rmtree(root, ignore_errors=True)
         write_tree(root, 0, single_import=single)
+        if name.startswith("subdir-"):
+            common.write_tree(root, {"main/sub/deep/extra.yml": "SubFile0: !record\n  fields:\n    z: int\n", "lib/more/extra.yml": "LibSub0: !record\n  fields:\n    z: int\n"})
         w = Watcher(root, os.path.join(root, "home"), yardl, delays)
         os.makedirs(os.path.join(root, "home"), exist_ok=True)
         verdict = {"name": name, "saves": len(steps)}
@@ -237,6 +245,8 @@ def run(ctx):
                 raise Inconclusive("%s: initial regeneration did not finish within 30 s wall" % name)
             cur_outputs = ("cpp", "python", "json", "matlab")
             final_variant, lib_text, second = 0, LIB, None
+            sub = "SubFile0: !record\n  fields:\n    z: int\n" if name.startswith("subdir-") else None
+            libsub = "LibSub0: !record\n  fields:\n    z: int\n" if name.startswith("subdir-") else None
             starts_before = w.counts()[0]
             invalid_seen = False
             for gap, kind, v, how in steps:
@@ -268,6 +278,15 @@ def run(ctx):
                     if os.path.exists(os.path.join(root, "main/second.yml")):
                         os.replace(os.path.join(root, "main/second.yml"), os.path.join(root, "moved_out_%d.yml" % v))
                     second = None
+                elif kind == "sub-file":
+                    # a model file in a subdirectory of the package (existing from the start for 'subdir-' schedules, otherwise created here)
+                    sub = "SubFile%d: !record\n  fields:\n    z: int\n" % v
+                    os.makedirs(os.path.join(root, "main/sub/deep"), exist_ok=True)
+                    save(os.path.join(root, "main/sub/deep/extra.yml"), sub, how)
+                elif kind == "lib-sub-file":
+                    libsub = "LibSub%d: !record\n  fields:\n    z: int\n" % v
+                    os.makedirs(os.path.join(root, "lib/more"), exist_ok=True)
+                    save(os.path.join(root, "lib/more/extra.yml"), libsub, how)
                 elif kind == "rm-output":
                     shutil.rmtree(os.path.join(root, "out"), ignore_errors=True)
                 elif kind == "rm-python-output":
@@ -302,6 +321,10 @@ def run(ctx):
             write_tree(ref, final_variant, cur_outputs, lib_text, single_import=single)
             if second is not None:
                 common.write_tree(ref, {"main/second.yml": second})
+            if sub is not None:
+                common.write_tree(ref, {"main/sub/deep/extra.yml": sub})
+            if libsub is not None:
+                common.write_tree(ref, {"lib/more/extra.yml": libsub})
             p = cli.run_cli("generate", os.path.join(ref, "main"), home)
             if p.rc != 0:
                 raise Inconclusive("%s: reference one-shot generate failed: %s" % (name, cli.clean(p.stderr)[:300]))
